@@ -17,6 +17,7 @@ import Retro.Props.C15.GridCone
 import Retro.Props.C15.GridCapsule
 import Retro.Props.C15.Closed
 import Retro.Props.C15.ClosedEuler
+import Retro.Props.C15.ClosedPoles
 import Mathlib.Tactic.Ring
 import Mathlib.Tactic.LinearCombination
 import Mathlib.Algebra.Field.Basic
